@@ -204,8 +204,20 @@ def run(ctx: Ctx) -> None:
     wsr = [c for c in calls(cl_) if call_name(c) == "send" and "websocket.close" in norm(c)]
     ok = len(wsr) == 1 and ("scope['type'] == 'websocket'", True) in guard_atoms(wsr[0])
     ctx.check("C17.R6", wc, "websocket -> websocket.close", ok, "WebSocket requests must be refused", wsr[0] if wsr else cl_)
-    lr = [n for n in walk_local(cl_) if isinstance(n, ast.Return) and ("scope['type'] == 'lifespan'", True) in guard_atoms(n)]
-    ctx.check("C17.R6", wc, "lifespan -> return", len(lr) == 1, "lifespan scopes must be declined quietly", cl_)
+    from ..pred import _Raised as _R17, eval_function as _evf17
+    from .common import value_slice as _vs17
+
+    act = _vs17(cl_.body, lambda c_: call_name(c_) in ("self.handle_http", "send"), lambda c_: ast.Constant(value=call_name(c_)), returns="<returns>")
+    table17 = {}
+    for typ in ("http", "websocket", "lifespan", "bogus"):
+        try:
+            table17[typ] = _evf17(act, {"__lenient__": True, "scope": {"type": typ}})
+        except _R17:
+            table17[typ] = "raises"
+        except Exception as error:
+            table17[typ] = f"not evaluable: {error}"
+    okt = table17 == {"http": "self.handle_http", "websocket": "send", "lifespan": table17.get("lifespan"), "bogus": "raises"} and table17.get("lifespan") in ("<returns>", "<no emission>")
+    ctx.check("C17.R6", wc, "dispatch table: http -> adapter, websocket -> refused, lifespan -> declined quietly, anything else -> error", okt, f"scope type -> action: {table17}", cl_)
 
     # R7
     be = repo.func(M, "_build_environ")
